@@ -2,7 +2,10 @@ module verifh
 
 go 1.22.0
 
-require github.com/containerd/nri v0.6.1
+require (
+	github.com/containerd/nri v0.6.1
+	sigs.k8s.io/yaml v1.3.0
+)
 
 require (
 	github.com/containerd/log v0.1.0 // indirect
@@ -16,6 +19,7 @@ require (
 	google.golang.org/genproto/googleapis/rpc v0.0.0-20230731190214-cbb8c96f2d6d // indirect
 	google.golang.org/grpc v1.57.1 // indirect
 	google.golang.org/protobuf v1.34.1 // indirect
+	gopkg.in/yaml.v2 v2.4.0 // indirect
 )
 
 replace github.com/containerd/nri => /repo
